@@ -371,7 +371,19 @@ func sampleScalar(t reflect.Type, k int) reflect.Value {
 	case t == bigType:
 		v.Set(reflect.ValueOf(*sampleBig(k)))
 	case t.Kind() == reflect.String:
-		v.SetString(fmt.Sprintf("s%d", k))
+		// (only in the binary round trip of C01: XML 1.0 cannot carry U+0000 at all)
+		kk := k % 6
+		if !nulSamples {
+			kk = 0
+		}
+		switch kk {
+		case 4:
+			v.SetString(fmt.Sprintf("s%06d\x00", k%1000000)) // eight bytes, the last one U+0000: a character like any other
+		case 5:
+			v.SetString(fmt.Sprintf("pad-%04d\x00\x00\x00\x00\x00\x00\x00\x00", k%10000)) // sixteen bytes ending with eight U+0000
+		default:
+			v.SetString(fmt.Sprintf("s%d", k))
+		}
 	case t.Kind() == reflect.Bool:
 		v.SetBool(true)
 	case t.Kind() == reflect.Uint32: // enumerations: a registered value when there is one
@@ -418,6 +430,8 @@ func vendorExt(v int) ttlv.Struct {
 	}
 	return ttlv.Struct{x}
 }
+
+var nulSamples = os.Getenv("VERIF_NUL") == "1"
 
 var objType = reflect.TypeFor[kmip.Object]()
 
